@@ -255,6 +255,26 @@ func runSess(cfg *config) {
 			}, nil)
 		}
 	}
+	// scripted: write, switch away and straight back (no pause): what was written must be there
+	for _, rows := range []int{1, 40, 300} {
+		rows := rows
+		run(func(d *sdrv, r *hx.Rng) {
+			d.exec("CREATE DATABASE a1")
+			d.exec("CREATE DATABASE b1")
+			d.exec("USE a1")
+			d.exec("CREATE TABLE t1 (a int, b varchar(255))")
+			for round := 0; round < 3; round++ {
+				var vs []string
+				for k := 0; k < rows; k++ {
+					vs = append(vs, fmt.Sprintf("(%d, 'r%d')", round*1000+k, round))
+				}
+				d.exec("INSERT INTO t1 VALUES " + strings.Join(vs, ", "))
+				d.exec("USE b1")
+				d.exec("USE a1")
+				d.exec("INSERT INTO t1 VALUES (9999, 'after')")
+			}
+		}, nil)
+	}
 	// scripted: statements long enough to overlap several ticks of the flush timer must return
 	run(func(d *sdrv, r *hx.Rng) {
 		d.exec("CREATE DATABASE big")
